@@ -14,6 +14,27 @@ CAPS = [1.0, 1.0, 2.0, 3.0]
 
 
 def gen_spec(rng, profile="full", max_tasks=6):
+    spec = _gen_spec(rng, profile, max_tasks)
+    return decorate(spec)
+
+
+def decorate(spec):
+    """attributes that the modelled behaviour must NOT depend on, drawn from a generator of their own (so
+    that every (seed, index) case keeps its earlier shape): quality skills of workers (they only feed the
+    component error bookkeeping, which no property and no log observes)"""
+    import json as _json
+    import random as _random
+    import zlib as _zlib
+    rq = _random.Random(_zlib.crc32(_json.dumps(spec, sort_keys=True, default=str).encode()))
+    for tm in spec.get("teams", []):
+        for w in tm["workers"]:
+            if rq.random() < 0.35 and w.get("skills"):
+                names = sorted(w["skills"])
+                w["quality"] = {n: rq.choice([0.25, 0.5, 1.0]) for n in names if rq.random() < 0.7}
+    return spec
+
+
+def _gen_spec(rng, profile="full", max_tasks=6):
     """profile: 'core' (tasks+workers), 'full' (components, workplaces, facilities too).
     A 'full' case picks a theme so that the rarer interactions are exercised on purpose."""
     if profile == "full":
@@ -26,6 +47,8 @@ def gen_spec(rng, profile="full", max_tasks=6):
             return gen_contention_theme(rng)
         if r < 0.62:
             return gen_dense_dag_theme(rng)
+        if r >= 0.96:
+            return gen_auto_theme(rng)
     nT = rng.randint(1, max_tasks)
     share_names = rng.random() < 0.2
     dep_mix = rng.choice(["fs", "fs", "mixed", "mixed", "ss", "ff"])
@@ -164,6 +187,39 @@ def add_product(rng, spec, names, nW):
             t["wps_order"] = mine
     spec["components"] = comps
     spec["workplaces"] = wps
+
+
+def gen_auto_theme(rng):
+    """projects that run by themselves: every task automatic, some bound to components that must be placed
+    at a workplace first; teams with no worker at all, or with workers who are never free for them"""
+    nT = rng.randint(2, 5)
+    tasks = []
+    for i in range(nT):
+        t = dict(work=rng.choice([1.0, 2.0, 3.0]), prog=0.0, name="T%d" % i, auto=True, auto_rate=rng.choice([0.5, 1.0, 2.0]),
+                 inputs=[], wrule=0, frule=0, wprule=rng.choice([0, 1]))
+        if i and rng.random() < 0.6:
+            t["inputs"] = [[rng.randrange(i), rng.choice([0, 0, 1])]]
+        tasks.append(t)
+    ids = list(range(nT))
+    rng.shuffle(ids)
+    comps, k = [], 0
+    for c in range(rng.randint(1, 2)):
+        n = rng.randint(1, 2)
+        comps.append(dict(tasks=sorted(ids[k:k + n]), size=rng.choice([1.0, 1.0, 2.0])))
+        k += n
+    names = [t["name"] for t in tasks]
+    wps = []
+    for q in range(rng.randint(1, 2)):
+        facs = [dict(name="F%d" % q, skills={n: 1.0 for n in names if rng.random() < 0.9}, cost=rng.choice(COSTS), solo=False)]
+        wps.append(dict(facilities=facs, cap=rng.choice([1.0, 2.0, 3.0]), targets=[i for i in range(nT) if rng.random() < 0.9], inputs=[]))
+    r = rng.random()
+    if r < 0.5:
+        workers = []
+    elif r < 0.8:
+        workers = [dict(skills={}, cost=rng.choice(COSTS), solo=False)]
+    else:
+        workers = [dict(skills={n: 1.0 for n in names}, cost=rng.choice(COSTS), solo=False, absence=[0, 1, 2])]
+    return dict(tasks=tasks, teams=[dict(workers=workers, targets=list(range(nT)))], components=comps, workplaces=wps)
 
 
 def gen_facility_theme(rng):
